@@ -65,7 +65,12 @@ theorem C01_wire_is_whole_packets (cfg : Cfg) (ds : List Directive) :
 /-- **Every transport ever handed to `connect`** — the current one whatever its state (mid-handshake,
 live, dead, dropped) and every earlier one — carries whole framed packets followed at most by the
 beginning of one more (a connection that died, or was replaced, in the middle of a packet), unless an
-operation-local write was dropped on it. Transport `i` (0-based) has ordinal `i + 1` in `tornNets`. -/
+operation-local write was dropped on it. Transport `i` (0-based) has ordinal `i + 1` in `tornNets`.
+By itself this is a weak statement (`Framed` only constrains the length field, and `rest` is
+existential: it is the *final* shape of a wire). What excludes interleaved packets is
+`C01_wire_is_whole_packets` — which accounts for the partial packet by the queue state and holds after
+*every* prefix of the program — together with `C01_replaced_transport_untouched` and C11 (a dead handle
+writes nothing): each byte was appended while the stronger statement held of the then-current transport. -/
 theorem C01_every_wire_is_a_prefix_of_whole_packets (cfg : Cfg) (ds : List Directive) :
     let w := ds.foldl World.execDirective { sess := Session.new cfg }
     ∀ i net, w.nets[i]? = some net → (i + 1) ∉ w.tornNets →
